@@ -33,7 +33,11 @@ CLAIMED = {
              "(loop_visits_in_order) and all of it once next reports exhaustion (stop_means_all). Tie: every query "
              "pattern of length <=2 (quick) / <=3 (thorough) over the 12 attributes on lists of length 0-4 / 0-6 in "
              "list/tuple/iterator/generator/async-generator form against the real LoopContext and AsyncLoopContext, "
-             "random op soups, and rendered for-loops (filter, else, recursive depth) in sync and async environments.",
+             "random op soups, and rendered for-loops (filter, else, recursive depth) in sync and async environments; "
+             "recursive loops with an else clause: a nested loop(children) call over an empty list/tuple/dict/str/"
+             "undefined (and over non-empty children) must render exactly what the same loop renders at the top level "
+             "over those children (one-level unfolding), and sized/generator/iterator/async-generator forms of one tree "
+             "must agree.",
         note="Trusted: Lean kernel; hand model Model/Loop.lean (tied by correspondence); compiler's for-loop "
              "driver (visit_For) is covered end-to-end only; values are ints.",
         design_ref="§5 C07",
